@@ -322,12 +322,17 @@ def _chop_build(p):
     from pyrtl.rtllib import libutils
     segs = p['segs']
     w = sum(segs)
-    a = pyrtl.Input(w, 'a')
+    if p.get('const') is not None:
+        # a constant operand (Const object, or a Verilog-style string): the helpers accept any wire-like
+        a = pyrtl.Const(p['const'], bitwidth=w) if p.get('kind') != 'str' else "%d'd%d" % (w, p['const'])
+        en = pyrtl.Input(1, 'en')        # keeps the design parametric in one input
+    else:
+        a = pyrtl.Input(w, 'a')
     parts = pyrtl.chop(a, *segs)
     pairs = [('c%d' % i, x) for i, x in enumerate(parts)]
     pairs.append(('rejoin', pyrtl.concat(*parts)))
     if p.get('part'):
-        ps = libutils.partition_wire(a, p['part'])
+        ps = libutils.partition_wire(pyrtl.as_wires(a), p['part'])
         pairs += [('p%d' % i, x) for i, x in enumerate(ps)]
         pairs.append(('prejoin', pyrtl.concat_list(ps)))
     return _outs(pairs)
@@ -336,7 +341,7 @@ def _chop_build(p):
 def _chop_spec(o, p, ins):
     segs = p['segs']
     w = sum(segs)
-    a = ins['a']
+    a = ins['a'] if p.get('const') is None else p['const']
     d = {}
     hi = w
     for i, s in enumerate(segs):
